@@ -42,6 +42,11 @@ struct SW { SW() noexcept; SW(const SW&); SW& operator=(const SW&); ~SW(); frien
 struct TS { TS() noexcept; TS(const TS&) noexcept; TS(TS&&) noexcept; TS& operator=(const TS&) noexcept; TS& operator=(TS&&) noexcept; ~TS(); friend void swap(TS&, TS&); RELOPS(TS) };
 static_assert(!std::is_nothrow_move_constructible<SW>::value && std::is_move_constructible<SW>::value && std::is_nothrow_move_constructible<TS>::value, "fixtures SW / TS");
 namespace c05_swapcheck { using std::swap; static_assert(noexcept(swap(std::declval<SW&>(), std::declval<SW&>())) && !noexcept(swap(std::declval<TS&>(), std::declval<TS&>())), "fixtures SW / TS: ADL swap"); }
+struct MA { MA() noexcept; MA(const MA&) noexcept; MA(MA&&) noexcept; MA& operator=(const MA&) noexcept; MA& operator=(MA&&); ~MA(); RELOPS(MA) };
+struct MC { MC() noexcept; MC(const MC&); MC(MC&&); MC& operator=(const MC&) noexcept; MC& operator=(MC&&) noexcept; ~MC(); RELOPS(MC) };
+static_assert(std::is_nothrow_move_constructible<MA>::value && !std::is_nothrow_move_assignable<MA>::value
+              && !std::is_nothrow_move_constructible<MC>::value && std::is_nothrow_move_assignable<MC>::value, "fixtures MA / MC");
+namespace c05_swapcheck { static_assert(!noexcept(swap(std::declval<MA&>(), std::declval<MA&>())) && !noexcept(swap(std::declval<MC&>(), std::declval<MC&>())), "fixtures MA / MC: std::swap"); }
 struct IL { IL(std::initializer_list<int>, int); IL(int, int); };
 static_assert(std::is_trivially_copyable<Triv>::value && std::is_nothrow_move_constructible<NT>::value && !std::is_nothrow_copy_constructible<NT>::value
               && !std::is_nothrow_move_constructible<TM>::value && !std::is_copy_constructible<MO>::value && !std::is_default_constructible<NDC>::value
@@ -61,7 +66,7 @@ template <class V> constexpr bool nothrow_free_swap() { using std::swap; return 
 
 CPP_KIND = {"int": "int", "long": "long", "char": "char", "float": "float", "double": "double", "bool": "bool",
             "cstr": "const char*", "string": "std::string", "Triv": "Triv", "NA": "NA", "TA": "TA", "NT": "NT", "TM": "TM", "MO": "MO",
-            "NDC": "NDC", "TD": "TD", "SW": "SW", "TS": "TS"}
+            "NDC": "NDC", "TD": "TD", "SW": "SW", "TS": "TS", "MA": "MA", "MC": "MC"}
 ARG_EXPR = {"int": "65", "long": "66L", "char": "'C'", "float": "1.5f", "double": "2.5", "bool": "true",
             "cstr": 'static_cast<const char*>("abc")', "string": 'std::string("abc")'}
 TRAIT_EXPR = {
